@@ -17,7 +17,7 @@ RULE = ("random histories over a population of <= 8 histograms (1D static/gapped
         "round trip), mutations (fill with adaptive growth, fill_n, in-place arithmetic, set_dtype, in-place normalize / merge, direct "
         "metadata edits); around every public call all live objects are snapshotted and every object other than the mutation target must "
         "be bit-identical afterwards; non-trivial = history with >= 1 derivation and >= 1 later mutation that changed the bins of the "
-        "mutated object (adaptive growth / merge); distinct by hash of the operation log Derivations include from_dict(to_dict()), create_from_dict and the xarray round trip; histograms are also created from the binning object of another one; nested metadata values exist from the start (also under keys named like constructor arguments).")
+        "mutated object (adaptive growth / merge); distinct by hash of the operation log Derivations include from_dict(to_dict()), create_from_dict and the xarray round trip; histograms are also created from the binning object of another one; nested metadata values exist from the start (also under keys named like constructor arguments). Collections: copy (members and the collection's own bins independent; a grown copy can be copied again) and sum() over 0-3 members.")
 ASSUMPTIONS = [
     "identity selections returning self and construction from a user-supplied binning object share state by design and are not generated (collection members and copies, sums of one, mutable metadata values are)",
     "snapshots read public attributes only",
